@@ -182,12 +182,12 @@ def run(ctx):
         pool.mkdir()
         jobs = []
         for k, rec in enumerate(records):
-            args, sonames = materialise(rec, pool)
-            kind = rng.choice(list(KINDS))
-            jobs.append((k, rec, args, sonames, kind))
+            jobs.append((k, rec, rng.choice(list(KINDS))))
 
         def job(j):
-            k, rec, args, sonames, kind = j
+            k, rec, kind = j
+            args, sonames = materialise(rec, pool)
+            j = (k, rec, args, sonames, kind)
             res = {}
             for linker in symgen.LINKERS:
                 out = d / f"out{k}.{linker}"
